@@ -173,6 +173,42 @@ static void roundtrips(void) {
             if (valid && n && (a != EOK || b != EOK || r2 != n || wmemcmp(w, back, n + 1))) { char obs[200]; snprintf(obs, sizeof obs, "wcstombs_s rc=%s (%zu bytes), mbstowcs_s rc=%s (%zu chars), string of %zu characters", errname(a), r1, errname(b), r2, n); vio("C15", &s, -1, "round-trip-changes-string", "wcs-mbs-wcs", obs); }
         } }
 }
+/* overlapping operands ("Copying shall not take place between objects that overlap", "ESOVRLP when src and dest overlap"): src starting k bytes
+ * into dest, or dest starting inside the source string.  Either the overlap is reported (handler once, dest emptied) or the call returns exactly
+ * what disjoint operands give; a silently different result is a violation that went unreported. */
+static void overlaps(void) {
+    static const char *MB[] = {"a", "abc", "abcdefgh", "gr\xc3\xbc\xc3\x9f" "e"}; static const wchar_t *WC[] = {L"a", L"abc", L"abcdefgh", L"grüß" L"e"};
+    char obs[300]; mscn s; memset(&s, 0, sizeof s);
+    for (int fn = F_MBSTOWCS; fn <= F_WCSRTOMBS; fn++) for (int si = 0; si < 4; si++) {
+        int to_wide = fn <= F_MBSRTOWCS; s.fn = fn; s.n = 0;
+        wchar_t rw[16]; char rm[64]; size_t k = to_wide ? mbstowcs(rw, MB[si], 15) : wcstombs(rm, WC[si], 63); if (k == (size_t)-1) continue;
+        size_t srcb = to_wide ? strlen(MB[si]) + 1 : (wcslen(WC[si]) + 1) * 4, dmax = k + 3, destb = dmax * (to_wide ? 4 : 1), step = to_wide ? 1 : 4;
+        for (long off = -(long)srcb + (long)step; off < (long)destb; off += (long)step) {      /* src = dest + off (bytes) */
+            if (!to_wide && off % 4) continue; if (to_wide && off < 0 && (-off) % 4) continue;   /* keep both operands aligned for their type */
+            size_t tot = destb + srcb + (size_t)(off < 0 ? -off : off) + 8;
+            uint8_t *blk = place_end(0, (tot + 7) & ~(size_t)7); memset(blk, 0x6b, tot);
+            uint8_t *dest = off >= 0 ? blk : blk + (-off), *src = off >= 0 ? blk + off : blk;
+            memcpy(src, to_wide ? (const void *)MB[si] : (const void *)WC[si], srcb);
+            size_t *retp = place_end(2, sizeof(size_t)); *retp = 0x5a5a5a5a; const void **srcp = place_end(3, sizeof(void *)); *srcp = src;
+            mbstate_t *ps = place_end(4, sizeof(mbstate_t)); memset(ps, 0, sizeof *ps);
+            errno_t rc = -999; probes_reset(); g_cur_fn = FN[fn]; g_shm->in_call = 1;
+            switch (fn) {
+            case F_MBSTOWCS:  FENCED(rc = _mbstowcs_s_chk(retp, (wchar_t *)dest, dmax, (char *)src, dmax - 1, BOS_UNKNOWN)); break;
+            case F_MBSRTOWCS: FENCED(rc = _mbsrtowcs_s_chk(retp, (wchar_t *)dest, dmax, (const char **)srcp, dmax - 1, ps, BOS_UNKNOWN)); break;
+            case F_WCSTOMBS:  FENCED(rc = _wcstombs_s_chk(retp, (char *)dest, dmax, (wchar_t *)src, dmax - 1, BOS_UNKNOWN)); break;
+            default:          FENCED(rc = _wcsrtombs_s_chk(retp, (char *)dest, dmax, (const wchar_t **)srcp, dmax - 1, ps, BOS_UNKNOWN)); break;
+            }
+            g_shm->in_call = 0; K[K_CALLS]++;
+            char det[100]; snprintf(det, sizeof det, "overlap|%s", off == 0 ? "same-pointer" : off > 0 ? "src-inside-dest" : "dest-inside-src");
+            {   char b[160]; snprintf(b, sizeof b, "%s;%s;%d;%s", FN[fn], det, si, g_fence.faulted ? "fault" : errname(rc)); distinct_add(hash_str(b)); }
+            if (g_fence.faulted) { snprintf(obs, sizeof obs, "%s fault with src = dest%+ld bytes", g_fence.is_write ? "WRITE" : "READ", off); vio(g_fence.is_write ? "C01" : "C02", &s, -1, g_fence.is_write ? "W-fault" : "R-fault", det, obs); continue; }
+            if (rc == ESOVRLP) { if (g_h.count != 1) { snprintf(obs, sizeof obs, "ESOVRLP with %d handler calls (src = dest%+ld bytes)", (int)g_h.count, off); vio("C05", &s, -1, "R1-handler-invoked-more-than-once", det, obs); } continue; }
+            int same = rc == EOK && *retp == k && (to_wide ? (!memcmp(dest, rw, k * 4) && ((uint32_t *)dest)[k] == 0) : (!memcmp(dest, rm, k) && dest[k] == 0));
+            if (!same) { snprintf(obs, sizeof obs, "src = dest%+ld bytes (source of %zu bytes, dmax %zu): returned %s retval %zu, disjoint operands give EOK and %zu: the overlap is not reported and the result differs", off, srcb, dmax, errname(rc), *retp, k);
+                vio("C05", &s, -1, "overlap-not-reported-and-result-differs", det, obs); }
+        }
+    }
+}
 static void gen(void) {
     long idx = 0; mscn s; size_t maxn = g_tier ? 4 : 3;
     for (int fn = 0; fn < F_NUM; fn++) for (size_t n = 0; n <= (fn >= F_WCRTOMB ? 1 : maxn); n++) { unsigned long tot = 1; for (size_t i = 0; i < n; i++) tot *= 4;
@@ -185,7 +221,7 @@ static void gen(void) {
             s.inv = inv; s.invpos = ip; s.lenv = lenv; s.dmv = dmv; s.dnull = dnull; s.bos = (int)(my & 1);
             g_shm->cur = my; run_case(&s, my);
         } }
-    if (g_wid == 0 && g_only_idx < 0) roundtrips();
+    if (g_wid == 0 && g_only_idx < 0) { roundtrips(); overlaps(); }
 }
 static void body(void *a, long lo, long hi) { (void)a; (void)hi; g_skip_below = lo; gen(); for (int i = 0; i < K_NUM; i++) __sync_fetch_and_add(&CTR(i), K[i]); __sync_fetch_and_add(&CTR(60), g_fp_checks); distinct_emit(); }
 static void on_death(void *a, long idx, int status, int hung) {
